@@ -134,8 +134,34 @@ class Harness(object):
         # registration: 0 = models handed to the constructor (added one at a time), 1 = machine built without a
         # model, then ONE add_model([m0, m1, ...]) call for all of them
         one_call = bool(case.get('reg', 0))
+        states = ['s%d' % s for s in range(case['nstates'])]
+        self.tmo_started = set()
+        tmo = case.get('tmo')
+        if tmo:
+            # AsyncTimeout state whose on_timeout callback awaits a trigger on the model: a root call chain started by
+            # the timer (virtual time: the loop's clock only moves when the schedule says so)
+            from transitions.extensions.asyncio import AsyncTimeout
+            from transitions.extensions.states import add_state_features
+            cls = add_state_features(AsyncTimeout)(type('T' + cls.__name__, (cls,), {}))
+            m_t, s_t, x = tmo
+
+            async def on_tmo(event_data):
+                if event_data.model is not h.models[m_t] or x in h.tmo_started:
+                    return
+                h.tmo_started.add(x)
+                h.moves += 1
+                h.current[id(asyncio.current_task())] = x
+                try:
+                    res = res_code(await getattr(h.models[m_t], 'e%d' % x)())
+                except BaseException as ex:  # noqa
+                    res = [1, exc_code(ex)]
+                h.results[x] = [x] + res
+                h.moves += 1
+            states[s_t] = dict(name='s%d' % s_t, timeout=100, on_timeout=[on_tmo])
+        self.current = {}
+        self.results = {}
         self.machine = cls(model=None if one_call else self.models,
-                           states=['s%d' % s for s in range(case['nstates'])],
+                           states=states,
                            initial='s0', queued=queued, send_event=True, auto_transitions=False,
                            finalize_event=[fin_rec] if any(e['fin'] is not None for e in case['events']) else [])
         if one_call:
@@ -214,8 +240,7 @@ class Harness(object):
         succ = {p: e for e, p in case.get('pred', [])}
         loop = asyncio.get_running_loop()
         self.gates = {e: loop.create_future() for e in pred}
-        self.current = {}
-        self.results = {}
+        tmo_ev = case['tmo'][2] if case.get('tmo') else None
         reported = set()
         started = set()
         steps = []
@@ -224,7 +249,13 @@ class Harness(object):
                 self.log = []
                 self.cancelled = []
                 kind = 0
-                if ev in top and ev not in started and (ev not in pred or pred[ev] in self.results):
+                if ev == tmo_ev and ev not in self.tmo_started:
+                    loop._vt += 1000.0                        # time passes: an armed timer fires now
+                    await self.quiesce()
+                    if ev in self.tmo_started:
+                        started.add(ev)
+                        kind = 1
+                elif ev in top and ev not in started and (ev not in pred or pred[ev] in self.results):
                     started.add(ev)
                     kind = 1
                     if ev in pred:
@@ -250,23 +281,29 @@ class Harness(object):
             for f in list(self.gates.values()) + list(self.pending.values()):
                 if not f.done():
                     f.cancel()
-            for t in self.tasks.values():
-                if not t.done():
-                    t.cancel()
-            for _ in range(6):
-                await asyncio.sleep(0)
-            for t in self.tasks.values():
-                if not t.done():
-                    t.cancel()
-            await asyncio.sleep(0)
+            me = asyncio.current_task()
+            for _ in range(3):
+                for t in asyncio.all_tasks():
+                    if t is not me and not t.done():
+                        t.cancel()
+                for _ in range(6):
+                    await asyncio.sleep(0)
             self.base.async_tasks.clear()
             del self.base.protected_tasks[:]
         return [1, steps, unfinished]
 
 
+class VLoop(asyncio.SelectorEventLoop):
+    """event loop with a virtual clock (timers fire only when the harness advances it)"""
+    _vt = 0.0
+
+    def time(self):
+        return self._vt
+
+
 def impl_conc(case):
     h = Harness(case)
-    loop = asyncio.new_event_loop()
+    loop = VLoop()
     try:
         loop.set_exception_handler(lambda l, ctx: None)
         return loop.run_until_complete(h.run())
@@ -285,8 +322,11 @@ def enc(case):
         cands = [[opt_(c['prep'], enc_act), opt_(c['cond'], lambda x: [enc_act(x[0]), bool(x[1])]),
                   opt_(c['before'], enc_act), opt_(c['dest']), opt_(c['after'], enc_act)] for c in e['cands']]
         evs.append([e['model'], list(e['srcs']), cands, opt_(e['fin'], enc_act)])
-    return [case['cls'], case['queued'], case['nstates'], list(case['models']), evs, list(case['top']),
-            list(case['protected']), list(case['schedule']), [[e, p] for e, p in case.get('pred', [])]]
+    tmo = case.get('tmo')
+    return [case['cls'], case['queued'], case['nstates'], list(case['models']), evs,
+            list(case['top']) + ([tmo[2]] if tmo else []),
+            list(case['protected']), list(case['schedule']), [[e, p] for e, p in case.get('pred', [])],
+            [[tmo[0], [tmo[1], tmo[2]]]] if tmo else []]
 
 
 def opt_(x, f=lambda y: y):
@@ -417,6 +457,40 @@ def gen(rng, i, tier):
                 set_act(*rng.choice(slots), [A_RAISE])
             elif x < 0.7:
                 events[a]['srcs'] = []
+    # every 4th case: state s_t is an AsyncTimeout state; the on_timeout callback awaits the trigger of a further
+    # (slow) event x on model m_t -- a root call chain started by the timer.  So that "the timer of m_t is armed iff
+    # the last set_state of m_t entered s_t" holds for flat and hierarchical machines alike, every set_state of m_t
+    # is made by a task that read the current state: all events of m_t are top-level and unprotected, and a
+    # transition into s_t has no `before` callback (conditions passed + set_state without a suspension between)
+    tmo = None
+    if i % 4 == 3:
+        m_t, s_t = rng.randrange(nmodels), rng.randrange(nstates)
+        protected = []
+        for k2 in range(ntop, len(events)):
+            if events[k2]['model'] == m_t:
+                if nmodels > 1:
+                    events[k2]['model'] = (m_t + 1) % nmodels
+                else:
+                    for e in events:
+                        for h, k in all_cbs(e):
+                            if get_act(h, k) == [A_TRIG, k2]:
+                                set_act(h, k, [A_NONE])
+        arm = events[0]
+        arm['model'], arm['srcs'] = m_t, list(range(nstates))
+        arm['cands'] = arm['cands'][:1]
+        arm['cands'][0]['cond'] = None if arm['cands'][0]['cond'] is None else [arm['cands'][0]['cond'][0], True]
+        arm['cands'][0]['dest'] = s_t
+        events.append(gen_event(rng, nstates, nmodels, m_t, fin))
+        xe = events[-1]
+        xe['srcs'] = list(range(nstates))
+        if xe['cands'][0]['prep'] is None and xe['cands'][0]['before'] is None:
+            xe['cands'][0]['prep'] = [A_NONE]
+        for e in events:
+            if e['model'] == m_t:
+                for c in e['cands']:
+                    if c['dest'] == s_t:
+                        c['before'] = None
+        tmo = [m_t, s_t, len(events) - 1]
     ncb = sum(len(all_cbs(e)) for e in events)
     nev = len(events)
     sched = []
@@ -430,7 +504,7 @@ def gen(rng, i, tier):
     for _ in range(ncb + 2):
         sched += list(range(nev))
     return dict(cls=i % 2, queued=queued, nstates=nstates, models=[rng.randrange(nstates) for _ in range(nmodels)],
-                events=events, top=top, protected=protected, schedule=sched, reg=(i // 2) % 2, pred=pred)
+                events=events, top=top, protected=protected, schedule=sched, reg=(i // 2) % 2, pred=pred, tmo=tmo)
 
 
 def in_envelope(case):
@@ -442,6 +516,20 @@ def in_envelope(case):
         return False
     if len({e['fin'] is None for e in case['events']}) > 1:
         return False
+    tmo = case.get('tmo')
+    if tmo:
+        m_t, s_t, x = tmo
+        if case['protected'] or x in case['top'] or not (0 <= x < nev) or case['events'][x]['model'] != m_t:
+            return False
+        if not (0 <= m_t < len(case['models']) and 0 <= s_t < case['nstates']):
+            return False
+        for e in case['events']:
+            for h, k in all_cbs(e):
+                a = get_act(h, k)
+                if a[0] == A_TRIG and (a[1] == x or case['events'][a[1]]['model'] == m_t):
+                    return False
+            if e['model'] == m_t and any(c['dest'] == s_t and c['before'] is not None for c in e['cands']):
+                return False
     refs = []
     for e in case['events']:
         if not (0 <= e['model'] < len(case['models'])):
@@ -468,7 +556,9 @@ RULE = ('cases = 2-4 concurrently awaited triggers (ensure_future) on 1-3 models
         'each suspend on a future owned by the harness; 0-2 further events are awaited from inside callbacks (own call '
         'chain), in 40% of the cases two or three of the top-level triggers are awaited one after another in the SAME '
         'asyncio task (the earlier one mostly failing: raising callback / event valid in no state; exception caught by '
-        'the caller), callbacks may raise or call remove_model, tasks may be listed in protected_tasks, sources may exclude '
+        'the caller), in every 4th case one state is an AsyncTimeout state whose on_timeout callback awaits the trigger of a '
+        'further slow event (fired under a virtual clock when the schedule names that event), callbacks may raise or call '
+        'remove_model, tasks may be listed in protected_tasks, sources may exclude '
         'the current state (MachineError). The schedule (random prefix + round-robin tail that drains everything) says '
         'which trigger task is started / which pending future is released next; after every step the loop runs until '
         'nothing moves. Observed per step: callback Start/End/raise items with the model state seen, results of '
@@ -485,13 +575,18 @@ ASSUMPTIONS = [
     'within one schedule step the order in which asyncio resumes SEVERAL cancelled tasks is not compared (items are '
     'grouped per task); on_exception handlers, timeouts and machines sharing a model are not explored',
     'each event name is triggered at most once per case (top-level or from one callback)',
+    'AsyncTimeout cases: timers themselves (arming on enter, cancelling on exit, asyncio.sleep, shield) are asyncio / C17 '
+    'territory; the harness keeps every set_state of the timeout model in a task that read the current state (events of '
+    'that model top-level and unprotected, no suspension between "conditions passed" and entering the timeout state) so '
+    'that "armed iff the last set_state entered the timeout state" holds, and the timer fires at most once per case',
 ]
 THEOREMS = ['C08_cancel_exact', 'C08_cancel_step', 'C08_frame_discipline', 'C08_cancelled_behaviour',
             'C08_finalize_only', 'C08_cancelled_result', 'C08_no_overwrite', 'C08_quiescent', 'C08_queued_deferred',
             'C08_queued_idle', 'C08_queued_serial', 'C08_queued_last', 'C08_model_serial', 'C08_global_scan',
             'C08_global_serial_fifo', 'C08_model_serial_fifo', 'C08_items_inside_body', 'C08_busy_defers',
             'C08_context_finally', 'C08_context_reset',
-            'C08_example', 'C08_example_queued', 'C08_example_model', 'C08_example_same_task']
+            'C08_example', 'C08_example_queued', 'C08_example_model', 'C08_example_same_task',
+            'C08_example_timeout']
 
 
 def _steps(obs):
@@ -525,6 +620,8 @@ def stats(case, obs, dist):
     inc('top_triggers_%d' % len(case['top']))
     if case.get('pred'):
         inc('cases_with_triggers_awaited_in_one_task')
+    if case.get('tmo'):
+        inc('cases_with_timeout_state')
     inc('nested_triggers', len(case['events']) - len(case['top']))
     if st is None:
         inc('undecodable')
@@ -545,6 +642,10 @@ def stats(case, obs, dist):
                 seen_c.add(c)
                 if pending_slot.get(c) == FIN:
                     inc('cancelled_inside_finalize')
+        if case.get('tmo') and s[0] == 1 and any(case['tmo'][2] in r[1] for r in s[5]):
+            inc('timeout_triggered_event_registered_in_async_tasks')
+        if case.get('tmo') and case['tmo'][2] in s[2]:
+            inc('timeout_triggered_event_cancelled')
         for d in s[3]:
             if d[1] == 1 and any(p == d[0] for _, p in case.get('pred', [])):
                 inc('failed_trigger_followed_by_another_in_the_same_task')
@@ -702,6 +803,14 @@ def small_programs(tier):
                                   dict(model=0, srcs=[0, 1, 2], cands=[_cand(before=N, dest=1, after=N)], fin=None),
                                   dict(model=0, srcs=[0, 1, 2], cands=[_cand(prep=N, dest=2)], fin=None)],
                           top=[0, 1, 2], protected=[], pred=[[1, 0]]))
+    for cls in (0, 1):
+        # event 0 enters the AsyncTimeout state 1; the timer starts the slow event 2 (root call chain); event 1 passes
+        # on the same model while event 2 is suspended and must cancel it
+        progs.append(dict(cls=cls, queued=0, nstates=3, models=[0],
+                          events=[dict(model=0, srcs=[0], cands=[_cand(dest=1, after=N)], fin=None),
+                                  dict(model=0, srcs=[1], cands=[_cand(prep=N, dest=2)], fin=None),
+                                  dict(model=0, srcs=[1], cands=[_cand(before=N, dest=0, after=N)], fin=None)],
+                          top=[0, 1], protected=[], tmo=[0, 1, 2]))
     if tier == 'thorough':
         for queued in (0, 1, 2):
             progs.append(dict(cls=0, queued=queued, nstates=3, models=[0, 0],
@@ -739,7 +848,7 @@ def extra_checks(tier, seed):
         prog['reg'] = pi % 2
         counts = {}
         for ev, e in enumerate(prog['events']):
-            counts[ev] = len(all_cbs(e)) + (1 if ev in prog['top'] else 0)
+            counts[ev] = len(all_cbs(e)) + (1 if ev in prog['top'] or (prog.get('tmo') and prog['tmo'][2] == ev) else 0)
         tail = list(range(len(prog['events']))) * 3
         cases = []
         for sch in interleavings(counts):
